@@ -361,8 +361,12 @@ func (eng *Engine) solveAll(results []*FuncResult, cfg *SolverCfg, filter func(o
 	retry := *cfg
 	retry.timeout = cfg.timeout * 3
 	retry.first = cfg.first * 3
+	nretry := 0
 	for _, j := range jobs {
-		if j.o.status == "undecided" {
+		if j.o.status == "undecided" && j.o.kind != "vacuity" {
+			if nretry++; nretry > 3 {
+				break // many undecided obligations are not a load artefact
+			}
 			prev := j.o.output
 			body := eng.buildScript(j.fc, j.o)
 			eng.solve(body, j.o, &retry)
